@@ -53,6 +53,25 @@ def jobs(ctx):
                 if m:
                     ov["FinalTimeEndOfRunEventHandler"]["output_handler"] = m.group(1)
             js.append((c, ov))
+    # two fixed-interval sampling taggers with different intervals and different output handlers
+    two = "config_files/2018_JCP_149_064113/coulomb_atoms/power_bounded.ini"
+    if two in cfgs:
+        for (d1, d2, te) in ((0.3, 0.7, 5.0), (0.25, 0.4, 3.1)):
+            js.append((two, {
+                "TagActivator": {"taggers": "coulomb (factor_type_map_in_state_tagger), sampling (no_in_state_tagger), "
+                                            "sampling_two (no_in_state_tagger), "
+                                            "end_of_chain (active_global_state_in_state_tagger), "
+                                            "start_of_run (no_in_state_tagger), end_of_run (no_in_state_tagger)"},
+                "FixedIntervalSamplingEventHandler": {"sampling_interval": d1},
+                "SamplingTwo": {"create": "sampling_two", "trash": "sampling_two",
+                                "event_handler": "second_sampler (fixed_interval_sampling_event_handler)"},
+                "SecondSampler": {"sampling_interval": d2, "output_handler": "second_output"},
+                "InputOutputHandler": {"output_handlers": "separation_output_handler, "
+                                                          "second_output (separation_output_handler)"},
+                "SecondOutput": {"filename": "output/second_output.dat"},
+                "EndOfRun": {"trash": "end_of_chain, coulomb, sampling, sampling_two, end_of_run"},
+                "StartOfRun": {"create": "coulomb, sampling, sampling_two, end_of_chain, end_of_run"},
+                "FinalTimeEndOfRunEventHandler": {"end_of_run_time": te}}))
     return js + [(c, {}) for c in cfgs]
 
 
